@@ -236,7 +236,10 @@ def run(ctx):
             # the thrown value may itself be hostile (a proxy whose get trap throws): looking at it is guarded too
             progs.append("let r; try { r = 'v' + String(%s); } catch (e) { let nm: any = 'opaque'; try { nm = e && (e as any).name; } catch (_) { } r = 'caught:' + nm; } String(r).slice(0, 40)" % re.sub(r"\bN\b", "(" + sz + ")", h))
             meta.append(("hostile", h[:70] + " N=" + sz))
-    outs = common.harness(["prog"], [p.replace("\n", "\\n") for p in progs], timeout=90, chunk=4)
+    # a generous limit: four programs share one process, and the machine may be busy (a limit that is reached only
+    # under load would be a false alarm); a real hang is still a hang after 5 minutes
+    limit = 300
+    outs = common.harness(["prog"], [p.replace("\n", "\\n") for p in progs], timeout=limit, chunk=4)
     hist = {"caught_range": 0, "caught_other": 0, "values": 0}
     for (kind, nm), p, o in zip(meta, progs, outs):
         ctx.cov["evaluations"] += 1
@@ -249,7 +252,7 @@ def run(ctx):
             else:
                 ctx.prop_fail("abort: the script made the process abort (%s through %s)" % (kind, nm), case)
         elif o.startswith("TIMEOUT"):
-            ctx.prop_fail("hang: %s through %s did not finish within 90 s" % (kind, nm), case)
+            ctx.prop_fail("hang: %s through %s did not finish within %d s" % (kind, nm, limit), case)
         elif o.startswith("ERR"):
             ctx.prop_fail("uncatchable: %s through %s raised an error that try/catch did not see (%s)" % (kind, nm, o[:60]), case)
         else:
